@@ -2,6 +2,6 @@ SPECIFICATION Spec
 CONSTANTS
  Branches = {"m", "a", "b"}
  MaxCommits = 2
- RenameFirst = FALSE
+ RenameFirst = TRUE
 INVARIANTS C15_Recoverable C15_OldOrNew
 CHECK_DEADLOCK FALSE
